@@ -233,10 +233,9 @@ def body(PROP, plan):
                 w, _ = export_walks(cfg, sc, num, V.seed())
                 walks += w
             n_edge, n_walk = len(edges), len(walks)
-            behs = plan.get("regress", lambda: [])() + edges + walks
             # second pass: the real L1 info store behind the driver
-            l1 = [dict(b, proc="l1") for b in rng.sample(behs, min(len(behs), p["l1"]))]
-            behs = behs + l1
+            l1 = [dict(b, proc="l1") for b in rng.sample(edges + walks, min(len(edges + walks), p["l1"]))]
+            behs = plan.get("regress", lambda: [])() + edges + walks + l1
         for b in behs:
             b.setdefault("proc", "rec")
             b.setdefault("buf", 1)
